@@ -857,12 +857,12 @@ class PMeasure(e1.Op):
         if kind == "bmps":
             fns = ["1site", "1site_all", "nsite", "nsite"]
             if set("lrtb") <= set(env_setup(g, e)):
-                fns += ["nn_all", "2site"]
+                fns += ["nn_all", "2site", "2site"]
             else:
                 fns += ["2site_v"]
         elif kind == "ctm":
             # measure_2x2 / measure_nsite_exact need a 2x2 window to exist (KeyError on 1xN chains: observation, outside the property's lattices)
-            fns = ["1site", "1site_all", "nn", "nn_all", "line", "nsite", "2site"] + (["2x2", "2x2", "nsite_exact", "nsite_exact"] if min(t.dims) >= 2 else [])
+            fns = ["1site", "1site_all", "nn", "nn_all", "line", "nsite", "2site", "2site"] + (["2x2", "2x2", "nsite_exact", "nsite_exact"] if min(t.dims) >= 2 else [])
         else:
             fns = ["1site", "1site_all", "nn", "nn_all"]
         if not bonds:
@@ -881,7 +881,7 @@ class PMeasure(e1.Op):
         elif fn in ("2site", "2site_v"):
             args["ops"] = random_ops(g, sp, 2)
             args["dirn"] = "v" if fn == "2site_v" else rng.choice("hv")
-            args["pairs"] = rng.choice(["corner <=", "corner <", "row <=", "<=", "<"])
+            args["pairs"] = rng.choice(["corner <=", "corner <", "row <=", "row <", "<=", "<", "<"])
             args["sites"] = []
         elif fn == "2x2":
             x0, y0 = rng.randrange(t.dims[0] - 1), rng.randrange(t.dims[1] - 1)
@@ -1119,3 +1119,65 @@ class PEvolve(e1.Op):
 
 
 E3_WEIGHTS_C12 = {"p_prepare": 0.7, "p_env": 2, "p_measure": 10, "p_evolve": 3}
+
+
+@e1.register
+class PMetric(e1.Op):
+    """Bond metrics of NTU / BP environments for chosen cluster types and bonds, observed through a probe on env.bond_metric
+    while the public truncate_ runs with a non-binding truncation on a copy of the state."""
+    name = "p_metric"
+
+    def nout(self, rec):
+        return 0
+
+    def gen(self, g):
+        rng, t = g.rng, g.task
+        psi = pick_peps(g)
+        if psi is None or t.N < 2:
+            return None
+        bonds = [[list(b.site0), list(b.site1)] for b in t.geometry.bonds()]
+        rng.shuffle(bonds)
+        nb = len(bonds) if rng.random() < 0.6 else rng.randint(1, min(3, len(bonds)))
+        which = rng.sample(NTU_WHICH + BP_WHICH, rng.randint(1, 3))
+        if rng.random() < 0.5:
+            which = list(NTU_WHICH)
+        return {"op": "p_metric", "in": [psi], "args": {"bonds": bonds[:nb], "which": which}}
+
+    def run(self, task, rec, ins):
+        ar = rec["args"]
+        seen, errors, infos = [], [], []
+        for which in ar["which"]:
+            psi = ins[0].copy()
+            env = fpeps.EnvNTU(psi, which=which) if which in NTU_WHICH else fpeps.EnvBP(psi, which=which)
+            orig = env.bond_metric
+
+            def observed(Q0, Q1, s0, s1, dirn, orig=orig, which=which):
+                g = orig(Q0, Q1, s0, s1, dirn)
+                seen.append((g, which, (tuple(s0), tuple(s1), dirn)))
+                return g
+            env.bond_metric = observed
+            for b in ar["bonds"]:
+                try:
+                    info = fpeps.truncate_(env, opts_svd={"D_total": 1 << 12, "tol": 1e-15}, bond=(tuple(b[0]), tuple(b[1])))
+                    infos.append((which, b, float(info.truncation_error)))
+                except Exception as e:  # noqa: BLE001  (a metric that is not PSD makes the optimiser fail: report the metric first)
+                    errors.append((which, b, "%s: %s" % (type(e).__name__, str(e)[:100])))
+        self._last = (seen, errors, infos)
+        return []
+
+    def shadow(self, task, rec, sins, outs, ins=None):
+        w = core.current_world()
+        if getattr(w, "generating", False):
+            return []
+        seen, errors, infos = self._last
+        for g, which, where in seen:
+            check_metric(g, rec, which, where, w)
+        if errors:
+            raise V("C12", "exception-where-result-promised", "op %d: truncate_ with a non-binding truncation raised on environment %s, bond %s: %s" % ((rec["id"],) + errors[0]))
+        bad = [(wh, b, e) for wh, b, e in infos if not np.isfinite(e) or e > 1e-6]
+        if bad:
+            raise V("C12", "truncation-error", "op %d: truncate_ with a non-binding truncation reports truncation error %.3e (environment %s, bond %s)" % (rec["id"], bad[0][2], bad[0][0], bad[0][1]))
+        return []
+
+
+E3_WEIGHTS_C12 = {"p_prepare": 0.7, "p_env": 2, "p_measure": 10, "p_evolve": 3, "p_metric": 2.5}
